@@ -8,6 +8,7 @@ COQ_MODULE = "Timer.Model"; RUN_FN = "run"
 THEOREMS = ["C05_Inv_wake_preserved", "C05_Inv_wake_every_history", "C05_snapshot_invariant", "C05_never_early", "C05_woken_exactly_at_deadline",
             "C05_never_late_never_lost", "C05_complete_run_wakes_at_deadline", "C05_futures_keep_invariant",
             "C05_composite_event_is_driver_event", "C05_woken_through_last_poller",
+            "C05_composite_sleep_exact", "C05_composite_sleep_prefix", "C05_fragment_scripts_decode_ok",
             "C05_due_deadline_completes_immediately",
             "C05_timeout_ok_iff_inner_first", "C05_interval_ticks"]
 QUICK_N = 2500; THOROUGH_N = 150000
@@ -44,14 +45,21 @@ CLAIM = dict(
          "start + k*period when no tick is more than 5 ms late and always under Burst, Delay re-bases on now, Skip jumps to the next "
          "aligned instant after now; a registered Sleep polled again by any task (it may have moved) is registered once and woken "
          "through the task that polled it last. The pinned next() (front slot only) is refuted in Coq by the history register a@5, drop a, "
-         "register b@10, deactivate, the pinned never-refreshed waker by a hand-over script in which the receiving task never resumes. In the composite model (coq/Timer/Model.v: scripted tasks, FIFO executor, drivers, event set) every "
-         "module event is proved to be one such driver event with a contract-respecting operation list; beyond that the COMPOSITION "
-         "of these layers with the task executor and the event set is validated, not proved: on every invocation scripted async modules (sleep, sleep_until, timeout, interval with all three "
+         "register b@10, deactivate, the pinned never-refreshed waker by a hand-over script in which the receiving task never resumes. In the composite model (coq/Timer/Model.v: scripted tasks, FIFO executor, drivers, event set, waker table) every "
+         "module event is proved to be one such driver event with a contract-respecting operation list, and for the fragment "
+         "{sleep, sleep_until, log} the composite is proved END TO END (C05_composite_sleep_exact): for every list of such tasks "
+         "(any number, both modules, spawned at start-up or by messages at any instants) the run ends, every task finishes and its "
+         "log is exactly the list of deadlines the script prescribes, using C01's event-set specification for the fetch order. "
+         "For the remaining steps the COMPOSITION of these layers with the task executor and the event set is validated, not proved: on every invocation scripted async modules (sleep, sleep_until, timeout, interval with all three "
          "missed-tick behaviours, select!, Sleep::reset, dropped pinned sleeps, a polled boxed Sleep handed to another task; several tasks, 1-2 modules, tasks spawned at start-up or "
-         "by messages) run on the real des runtime and must reproduce the extracted model's per-task logs, run result and end time, and "
-         "an independent monitor checks on the implementation's log that every await returned at exactly the deadline computed from the script.",
-    note="partial: driver and future layers proved for all histories; their composition with tokio's executor and the event loop is "
-         "validated by differential runs only. Out of scope: tokio's 61-poll budget (C06); the order in which tokio runs timer-woken and freshly "
+         "by messages) run on the real des runtime, stepped event by event, and must reproduce the extracted model's per-task logs, run "
+         "result, end time and -- through the hook Driver::verif_snapshot -- the state of every module's timer driver after every event "
+         "(slots with entry counts, next_wakeup); an independent monitor checks on the implementation's log that every await returned at "
+         "exactly the deadline computed from the script, and evaluates Inv_wake itself on the real driver's snapshots "
+         "(C05_snapshot_invariant: sorted slots, live front slot, now <= next_wakeup <= earliest live deadline, no live timer when the event set is empty).",
+    note="partial: driver and future layers proved for all histories; the composite proved end to end for the sleep/sleep_until/log "
+         "fragment; for timeout/select/interval/reset/drop/hand-over/receive steps the composition with the executor and the event loop "
+         "is validated by differential runs (incl. driver snapshots) only. tokio itself is modelled as a FIFO executor. Out of scope: tokio's 61-poll budget (C06); the order in which tokio runs timer-woken and freshly "
          "spawned tasks within one event (scripts avoid competing senders/receivers on one channel); module shutdown/restart is covered at the driver level only (all entries dropped "
          "= a sequence of drop operations) and is not scripted in the harness (C09). Trusted: Coq kernel; extraction cross-checked "
          "in-Coq on a sample each run; harness/generator quality bounds the tie to the code.",
@@ -250,6 +258,10 @@ def walk_task(t, sends, chans):
                 timers.append((now, now + d, True, ts))
                 if ts > now:
                     info["cancels"].append((now + d, ts, key))
+                else:
+                    # the Sleep is sent in the very instant the receiver starts to wait: whether the delay is registered (and
+                    # dropped) or never polled depends on which of the two tasks tokio runs first -- visible in the driver snapshots
+                    info["ties"] += 1
                 now = ts; recs.append([(now, won[1])])
             else:
                 timers.append((now, now + d, d > 0, now + d)); now += d; recs.append([lost])
